@@ -448,7 +448,9 @@ class Gen:
         r = self.rng
         c = r.random()
         if self.lets and c < self.p["use_let"]:
-            name, _, cols = r.choice(self.lets)
+            ent = r.choice(self.lets)
+            name, cols = ent[0], ent[2]
+            self.last_source_ordered = len(ent) > 3 and ent[3]
             return {"k": "let", "name": name}, [x.clone(wild=False) for x in cols], False
         if c < self.p["use_let"] + self.p["use_lit"]:
             n = r.randint(0 if self.p.get("empty_lit") else 1, 3)
@@ -460,11 +462,15 @@ class Gen:
 
     # -- transforms
     def t_from(self):
+        self.last_source_ordered = False
         src, cols, wild = self.table_source()
         alias = self.new_alias() if (self.rng.random() < self.p["alias"] or src["k"] == "lit") else None
         q = alias or src.get("name")
         cols = [c.clone(qual=q) for c in cols]
-        return {"t": "from", "src": src, "alias": alias}, Scope(cols, 1 if wild else 0)
+        sc = Scope(cols, 1 if wild else 0)
+        # a let that ends sorted hands its order to the pipeline that reads it
+        sc.ordered = bool(self.last_source_ordered)
+        return {"t": "from", "src": src, "alias": alias}, sc
 
     def t_select(self, sc):
         r = self.rng
@@ -474,6 +480,16 @@ class Gen:
         n = r.randint(1, min(4, len(refs)))
         items, cols = [], []
         picked = r.sample(refs, n)
+        quals = sorted({c.qual for c in refs if c.qual})
+        if len(quals) >= 2 and r.random() < 0.4:
+            # semi-join pattern: project back to exactly the columns of one of the joined relations
+            q = r.choice(quals)
+            side = [c for c in refs if c.qual == q]
+            if 1 <= len(side) <= 5:
+                items = [[None, self.ref(sc, c)] for c in side]
+                nsc = Scope([c.clone(wild=False) for c in side], 0)
+                nsc.ordered = sc.ordered
+                return {"t": "select", "items": items}, nsc
         used = set()
         for c in picked:
             if c.name in used:
@@ -512,7 +528,15 @@ class Gen:
     def t_filter(self, sc):
         nsc = Scope(sc.cols, sc.nwild)
         nsc.ordered = sc.ordered
-        return {"t": "filter", "cond": self.expr(sc, "bool")}, nsc
+        r = self.rng
+        cond = self.expr(sc, "bool")
+        if r.random() < 0.3:
+            # conjunctions of conditions, one of them a disjunction: the shapes that splitting a filter in
+            # two, merging two filters, and WHERE/HAVING placement have to get right
+            a, b, c = self.cond(sc, 1), self.cond(sc, 1), self.cond(sc, 1)
+            dis = ["bin", "||", b, c]
+            cond = ["bin", "&&", a, dis] if r.random() < 0.5 else ["bin", "&&", dis, a]
+        return {"t": "filter", "cond": cond}, nsc
 
     def t_sort(self, sc, want_total=True):
         r = self.rng
@@ -623,6 +647,13 @@ class Gen:
             c = r.choice(pref) if pref and r.random() < 0.75 else r.choice(refs)
             if not any(c is k for k in keys):
                 keys.append(c)
+        allc = sc.referable()
+        if (sc.nwild == 0 and 1 <= len(sc.cols) <= 4 and len(allc) == len(sc.cols) and all(c.ty in ("int", "text", "float") for c in allc)
+                and r.random() < self.p.get("distinct", 0.15)):
+            # DISTINCT: every column is a key, so the rows of a partition are identical and `take 1` is determined
+            kx = [["col", c.qual, c.name] for c in allc]
+            nsc = Scope([c.clone(uniq=False) for c in allc], 0)
+            return {"t": "group", "keys": kx, "pipe": [{"t": "take", "lo": None, "hi": 1, "plain": True}]}, nsc
         kexprs = [["col", c.qual, c.name] for c in keys]
         kind = r.random()
         outer = sc
@@ -695,6 +726,13 @@ class Gen:
         if lo is not None and hi is not None and lo > hi:
             lo, hi = hi, lo
         return [kind, lo, hi], (kind, lo, hi)
+
+    def t_distinct(self, sc):
+        allc = sc.referable()
+        if not (sc.nwild == 0 and 1 <= len(sc.cols) <= 4 and len(allc) == len(sc.cols) and all(c.ty in ("int", "text", "float") for c in allc)):
+            return None
+        kx = [["col", c.qual, c.name] for c in allc]
+        return {"t": "group", "keys": kx, "pipe": [{"t": "take", "lo": None, "hi": 1, "plain": True}]}, Scope([c.clone(uniq=False) for c in allc], 0)
 
     def t_window_derive(self, sc, in_group=False):
         """[sort?] + derive/select/filter using window functions, optionally inside `window`."""
@@ -813,8 +851,24 @@ class Gen:
             if sc.nwild > 0 or any(c.name is None for c in sc.cols):
                 continue
             lets.append([name, pipe])
-            self.lets.append((name, pipe, [c.clone(qual=None) for c in sc.cols]))
+            self.lets.append((name, pipe, [c.clone(qual=None) for c in sc.cols], bool(sc.ordered)))
         main, sc = self.pipeline(r.randint(1, self.p["max_len"]))
+        if all(t["t"] in ("from", "select", "derive", "filter") for t in main) and r.random() < self.p.get("case_aliases", 0.25):
+            # last step: a projection whose aliases differ only in letter case (PRQL names are case sensitive).
+            # Only after from/select/derive/filter, which fit one SELECT: SQLite folds the case of column
+            # names, so such aliases must not have to be referred to across a sub-query boundary
+            refs = sc.referable()
+            if refs:
+                base = self.new_name("q")
+                items = []
+                for i, nm in enumerate([base, base.upper(), base.capitalize()][:r.randint(2, 3)]):
+                    c = r.choice(refs)
+                    e = self.ref(sc, c) if i == 0 or r.random() < 0.5 else self.expr(sc, c.ty, 1)
+                    items.append([nm, e])
+                if r.random() < 0.5:
+                    c = r.choice(refs)
+                    items.insert(r.randint(0, len(items)), [self.new_name(), self.ref(sc, c)])
+                main.append({"t": "select", "items": items})
         return {"lets": lets, "main": main, "cuts": self.cuts}
 
 
@@ -842,26 +896,35 @@ PROFILES = {
 
 
 def random_program(rng, profile="core"):
+    if profile == "boundary":
+        return boundary_program(rng)
+    if profile == "boundary_nowin":
+        return boundary_program(rng, windows=False)
     g = Gen(rng, PROFILES.get(profile, {}))
     return g.program()
 
 
-BOUNDARY_END = ["take", "sort", "take", "aggregate", "group", "join", "derive", "filter", "window", "select"]
-BOUNDARY_START = ["window", "window", "group", "derive", "filter", "sort", "take", "aggregate", "join", "select"]
+BOUNDARY_END = ["take", "sort", "take", "aggregate", "group", "join", "derive", "filter", "window", "select", "distinct", "distinct"]
+BOUNDARY_START = ["window", "window", "group", "derive", "filter", "sort", "take", "aggregate", "join", "join", "select", "distinct"]
 
 
-def boundary_program(rng):
+def boundary_program(rng, windows=True):
     """A program built around one pipeline boundary: from | select (frame known) | 0-2 random
     transforms | END | START | 0-1 random transforms, for every pairing of the kind that ends a
     prefix with the kind that starts the suffix. prog["boundary_at"] is the position between them."""
-    g = Gen(rng, PROFILES["boundary"])
+    prof = PROFILES["boundary"]
+    if not windows:
+        prof = dict(prof, group_window=False, weights=dict(prof["weights"], window=0.0))
+    g = Gen(rng, prof)
     w = g.p["weights"]
-    kinds = [k for k in w if w[k] > 0]
+    kinds = [k for k in w if w[k] > 0 and (windows or k != "window")]
     pre = [rng.choices(kinds, [w[k] for k in kinds])[0] for _ in range(rng.randint(0, 2))]
-    end, start = rng.choice(BOUNDARY_END), rng.choice(BOUNDARY_START)
+    end, start = rng.choice([k for k in BOUNDARY_END if windows or k != "window"]), rng.choice([k for k in BOUNDARY_START if windows or k != "window"])
     if end == "take":
         pre.append("sort")
     post = [rng.choices(kinds, [w[k] for k in kinds])[0] for _ in range(rng.randint(0, 1))]
+    if start == "join" and rng.random() < 0.5:
+        post = ["select"]
     forced = ["select"] + pre + [end, start] + post
     main, sc = g.pipeline(0, forced=forced)
     at = None
